@@ -16,7 +16,7 @@ RULE = ("every identity of the statement x every combination of operand lengths 
         "one operand has a component; distinct = (identity, lengths, draw).")
 RULE = RULE + ' Also: refusal for systems of another kind declared over the same inner SymPy system.'
 ASSUMPTIONS = ["SymPy expand/Rational arithmetic", "missing components count as zero (statement)"]
-MIN_REACH = {"quick": {"identity_checked": 3000, "length_combos_2": 16, "length_combos_3": 64, "refusal_checked": 5000},
+MIN_REACH = {"quick": {"identity_checked": 3000, "length_combos_2": 16, "length_combos_3": 64, "refusal_checked": 5000, "scaling_checked": 800},
              "thorough": {"identity_checked": 30000, "length_combos_2": 16, "length_combos_3": 64, "refusal_checked": 5000}}
 DRAWS = {"quick": 12, "thorough": 160}
 SHARD_TIMEOUT = {"quick": 600, "thorough": 3000}
@@ -183,6 +183,48 @@ def check_identities(la, lb, lc, ctx: Ctx, numeric_draw=None):
         rec.sample(case)
 
 
+def scaling_case(la, lb, ctx):
+    """float vectors scaled by an exact power of two (2^-40 .. 2^30): the products are homogeneous, so every result on the
+    scaled operands is the scaled result on the original ones - to rounding, relative to its own size (small components
+    are numbers like any others)"""
+    import sympy
+    from symplyphysics import Vector, dot_vectors as dot, cross_cartesian_vectors as cross, vector_magnitude as mag, vector_unit as unit
+    from symplyphysics.core.vectors.arithmetics import project_vector as proj, reject_cartesian_vector as rej
+    rec, r = ctx.rec, ctx.r
+    if la == 0 or lb == 0:
+        return
+    fl_ = lambda: sympy.Float(round(r.uniform(0.5, 5) * r.choice([1, -1]), 3))
+    A, B = [fl_() for _ in range(la)], [fl_() for _ in range(lb)]
+    e_ = r.choice([-40, -30, -27, 30])
+    s_ = sympy.Float(2) ** e_
+    a, b = Vector(A), Vector(B)
+    sa, sb = Vector([s_ * x for x in A]), Vector([s_ * x for x in B])
+    case = {"lengths": [la, lb], "a": [str(x) for x in A], "b": [str(x) for x in B], "scale": f"2**{e_}"}
+    rec.case(("scaling", str(case)))
+
+    def rel_eq(name, got, want):
+        rec.hit("scaling_checked")
+        try:
+            g_, w_ = complex(sympy.N(got, 30)), complex(sympy.N(want, 30))
+        except Exception:  # pylint: disable=broad-except
+            rec.violation(f"scaling:{name}:not-a-number", f"{name} of operands scaled by {case['scale']} is {str(got)[:80]}", case)
+            return
+        if abs(g_ - w_) > 1e-9 * abs(w_) and not (w_ == 0 and g_ == 0):
+            rec.violation(f"scaling:{name}", f"{name} of operands scaled by {case['scale']}: got {g_}, expected the scaled result {w_}", case)
+
+    rel_eq("dot", dot(sa, sb), s_ ** 2 * dot(a, b))
+    rel_eq("magnitude", mag(sa), s_ * mag(a))
+    rel_eq("magnitude-squared", mag(sa) ** 2, dot(sa, sa))
+    for i, (x, y) in enumerate(zip(pad(cross(sa, sb).components), pad(cross(a, b).components))):
+        rel_eq(f"cross[{i}]", x, s_ ** 2 * y)
+    for i, (x, y) in enumerate(zip(pad(unit(sb).components), pad(unit(b).components))):
+        rel_eq(f"unit[{i}]", x, y)
+    for i, (x, y) in enumerate(zip(pad(proj(sa, sb).components), pad(proj(a, b).components))):
+        rel_eq(f"projection[{i}]", x, s_ * y)
+    for i, (x, y) in enumerate(zip(pad(rej(sa, sb).components), pad(rej(a, b).components))):
+        rel_eq(f"rejection[{i}]", x, s_ * y)
+
+
 def check_refusals(rec):
     import sympy
     from symplyphysics import Vector, CoordinateSystem, add_cartesian_vectors as add, subtract_cartesian_vectors as sub, \
@@ -257,6 +299,12 @@ def work(spec, rec):
                 rec.inconc("watchdog in numeric identities")
             except ZeroDivisionError:
                 rec.add("numeric_draw_division_by_zero")
+        for _ in range(3):
+            try:
+                with harness.Watchdog(60):
+                    scaling_case(la, lb, ctx)
+            except TimeoutError:
+                rec.inconc("watchdog in scaling case")
     if spec.get("refusals"):
         check_refusals(rec)
 
